@@ -160,6 +160,9 @@ def monitor_c04(ctx):
     pays += [{'line': e('a *= b; a', big30)}, {'line': e('s *= 3; s', f'(S:{hx("s")} S:{hx("ab")}) ')}, {'line': e('l = [a]; l[0] *= b; l', big30)},
              {'line': e('int(10 ** 99)')}, {'line': e('int(a)', f'(S:{hx("a")} D:0:1:3000:b)')}, {'line': e('floor(a)', f'(S:{hx("a")} D:0:1:3000:b)')},
              {'line': e('sum(l)', f'(S:{hx("l")} (L 1' + f' I:{10 ** 30 - 1}' * 12 + '))')}, {'line': e('a * b', big30)}, {'line': e('a ** 2', big30)}]
+    for prec in (90, 60, 5):
+        pays.append({'ctxprec': prec, 'srcs': ['1 / 3', 'a * a', 'a * a * a', '2 ** 0.5', 'a / 7', 'x = a; x *= a; x', 'sum([1 / 3, 1 / 3])', 'round(a / 3, 40)',
+                                               'b * b * b * b', '(1 / 3) * 3', 'l = [a]; l[0] *= a; l']})
     return _run('c04', 'c04', pays, 'numeric expression trees / compound assignments / numeric builtins over host ints, bools, Decimals: type of the '
                 'result of * ** *=, digit count of every arithmetic node and numeric builtin vs max(28, 1 + widest numeric argument)')
 
@@ -184,6 +187,14 @@ def monitor_c05(ctx):
     for pat, subj in ADVERSARIAL:
         for fn in ('match', 'match_groups', 'match_all'):
             pays.append({'fn': fn, 'pattern': pat, 'subject_expr': subj, 'flags': []})
+    # every flag string (long ones, ones with separators or invalid letters) and any extra positional arguments a script
+    # may pass: none of them may lengthen or lift the limit
+    cat = ('(a+)+$', "('a' * 30 + '!')")
+    for fl in [['ims' * 10 + 'x'], ['i, m, s'], ['imsx' * 8], ['i' * 200 + '?'], ['ims' * 12 + ' ,|' + 'q'], ['', 5], ['i', 5], ['', 4.0],
+               ['', None], ['', 0], ['', '5'], ['i', 3, 2]]:
+        for fn in ('match', 'match_groups', 'match_all'):
+            pays.append({'fn': fn, 'pattern': cat[0], 'subject_expr': cat[1], 'flags': fl})
+            pays.append({'fn': fn, 'pattern': 'a', 'subject_expr': "('a')", 'flags': fl})
     n = sz(ctx, 40, 400)
     for i in range(n):
         r = random.Random(f'{ctx["seed"]}/mon-c05/{i}')
@@ -255,7 +266,13 @@ def monitor_c10(ctx):
              'may appear in the host mapping')
     b = _run('c10_noname', 'c10_noname', [{'srcs': ['len = 3', 'zz = 1', 'f = v => v', 'len([1, 2])']}, {'srcs': ['x = 5', 'x']}],
              'eval without a names mapping must not write into the builtin table')
-    return _merge('c10', [a, b])
+    MISSING_CASES = [['x', 'ok 3'], ['y', 'ParserError'], ['len([1, 2])', 'ok 2'], ['[1, 2]', 'ok [Decimal(\'1\'), Decimal(\'2\')]'], ['nofn(1)', 'ParserError'],
+                     ['y += 1', 'ParserError'], ['%u v%', 'ParserError'], ['str(x)', "ok '3'"], ['{"a": 1}["a"]', "ok Decimal('1')"], ['f = v => v + x; f(1)', "ok Decimal('4')"],
+                     ['x + 1', "ok Decimal('4')"], ['z = 1; z', "ok Decimal('1')"], ['max([1, 5])', "ok Decimal('5')"], ['try_it', 'ParserError']]
+    c = _run('c10_missing', 'c10_missing', [{'cases': MISSING_CASES}],
+             'host names mappings that answer for absent keys (Counter / defaultdict / __missing__): lookups still fall through to the builtins, '
+             'undefined names stay undefined, a lookup adds no key')
+    return _merge('c10', [a, b, c])
 
 
 # ------------------------------------------------------------------ C11 / C17
@@ -321,6 +338,11 @@ def monitor_c13(ctx):
         argsets += [[s, 'zz'], [s, 'zz', 5], [s, 'a'], [s, 0], [s, fn('ident')]]
     chunks = [names[i:i + 3] for i in range(0, len(names), 3)]
     pays = [{'names': ch, 'argsets': argsets} for ch in chunks]
+    # containers longer than the size cap (host-supplied data may be): non-mutators must leave them alone too
+    big = {'$': 'biglist', 'v': 10050}
+    bigd = {'$': 'bigdict', 'v': 10050}
+    bigsets = [[big], [big, ','], [',', big], [big, 0], [big, fn('ident')], [bigd], [bigd, 'k5'], [big, 5, 7], [big, None, True]]
+    pays += [{'names': ch, 'argsets': bigsets} for ch in chunks]
     return _run('c13', 'c13', pays, 'every non-mutator of FUNCTIONS called directly with lists / dicts / nested / host-float / tuple / str arguments, '
                 'key functions and reverse flags: deep type-and-value snapshot of every argument before vs after')
 
@@ -421,9 +443,16 @@ def monitor_c16(ctx):
             pays.append({'src': c.replace('{E}', add), 'apis': ['eval'], 'planted': True, 'full': True, 'budget': 1000})
     for st in ['c[0] = 1', 'c[10000] = 1', 'd["new"] = 1', 'd["0"] = 1', 'c[0] += 1', 'd["0"] += 1', 'd["new"] += 1', 'x = c\nx.push(1)', 'x = d\nx["n"] = 1']:
         pays.append({'src': st, 'apis': ['eval'], 'planted': True, 'full': True, 'budget': 100000})
-    return _run('c16', 'c16', pays, 'arbitrary Unicode strings (control characters, unnamed / private-use / surrogate code points), truncations at every '
+    for seq in [['zz9 = 5', 'zz9'], ['zz9 = 5', 'zz9 + 1'], ['fz = v => v', 'fz(1)'], ['zz9 = [1]', 'zz9 += [2]'], ['zz9 = 1; zz8 = 2', '[zz8]'],
+                ['q1 = 1', 'q2 = 2', 'q1 + q2'], ['zz9 = 5', 'zz9 += 1'], ['zz9 = 5', 'x = zz9']]:
+        pays.append({'seq': seq})
+    a = _run('c16', 'c16', pays, 'arbitrary Unicode strings (control characters, unnamed / private-use / surrogate code points), truncations at every '
                 'character, deep nesting, erroneous programs through parse / list_names / eval: only ParserError for parse and list_names, only '
                 'Exceptions for eval, a dead worker is a crash; each listed failure planted at 20 syntactic positions must be a ParserError')
+    b = _run('c10_missing', 'c10_missing', [{'cases': [['y', None], ['nofn(1)', None], ['y += 1', None], ['%u v%', None], ['x', None], ['len([1])', None],
+                                                       ['[y]', None], ['1 + y', None], ['f = v => w9; f(1)', None], ['y.push(1)', None], ['del y[0]', None]]}],
+             'undefined names / functions under host mappings that answer for absent keys (Counter / defaultdict / __missing__) are still ParserErrors')
+    return _merge('c16', [a, b])
 
 
 # ------------------------------------------------------------------ C18
